@@ -88,6 +88,15 @@ Proof.
   repeat constructor; vm_compute; discriminate.
 Qed.
 
+(* why [out <> tmp] is a hypothesis: in the model (POSIX offsets, create truncates) an -o path equal to the temp
+   path ends with exit 0 and NO output - the final remove_file(temp) deletes it.  (The temp name contains the pid,
+   so a user cannot hit this by accident.  An -o path equal to the ARCHIVE path is outside the model - the archive
+   is read lazily -: the real binary truncates the archive and exits 1, "failed to fill whole buffer".) *)
+Example getset_out_is_tmp_loses_output :
+  let r := getset_command ex_decode [65] ex_req None (Some [116]) [116] ex_st in
+  fst r = Zero /\ fs_read (p_fs (snd r)) [116] = None /\ p_stdout (snd r) = [].
+Proof. repeat split; vm_compute; reflexivity. Qed.
+
 (* ---- an unknown (or unreadable) sample: exit non-zero after exactly the earlier samples were written;
    the -o file exists (created once, before the loop); the temp file of the last good sample is left behind *)
 Theorem getset_unknown_nonzero : forall decode arc samples prefix output tmp st ar good bad rest,
